@@ -18,10 +18,17 @@ class MachineryError(Exception):
 
 
 def load_known():
-    if not os.path.exists(KNOWN):
-        return []
-    with open(KNOWN) as f:
-        return json.load(f).get('findings', [])
+    out = []
+    if os.path.exists(KNOWN):
+        with open(KNOWN) as f:
+            out += json.load(f).get('findings', [])
+    d = os.path.join(VERIF, 'known_findings.d')
+    if os.path.isdir(d):
+        for fn in sorted(os.listdir(d)):
+            if fn.endswith('.json'):
+                with open(os.path.join(d, fn)) as f:
+                    out += json.load(f).get('findings', [])
+    return out
 
 
 def _match(sig, pattern):
